@@ -31,7 +31,7 @@ def token_sig(text):
 
 
 class Instance:
-    def __init__(self, name, spec, menu=(0.5,), family=None, mirror=False):
+    def __init__(self, name, spec, menu=(0.5,), family=None, mirror=False, pre=None):
         self.name = name
         self.spec = spec
         self.menu = tuple(menu)
@@ -39,6 +39,7 @@ class Instance:
         self.text = R.print_spec(spec)
         self.nspec = R.normalize(spec)
         self.mirror = bool(mirror)
+        self.pre = pre  # observer calls made on the parsed object before it generates ("graphs")
         if self.mirror:
             # the object under test is Molecule(text).gen_mirror(): 'as if the elements had been written in reverse'
             els = []
@@ -70,11 +71,11 @@ class Instance:
         self.kind_of.setdefault(text, set()).add((ei, kind))
 
     def as_json(self):
-        return {"name": self.name, "spec": self.spec, "menu": list(self.menu), "family": self.family, "mirror": self.mirror}
+        return {"name": self.name, "spec": self.spec, "menu": list(self.menu), "family": self.family, "mirror": self.mirror, "pre": self.pre}
 
     @staticmethod
     def from_json(d):
-        return Instance(d["name"], d["spec"], d.get("menu", (0.5,)), d.get("family"), mirror=d.get("mirror", False))
+        return Instance(d["name"], d["spec"], d.get("menu", (0.5,)), d.get("family"), mirror=d.get("mirror", False), pre=d.get("pre"))
 
     def targets_from_points(self, points):
         """target mass of each stochastic object of one execution, computed from the declared law and the
@@ -512,7 +513,7 @@ def run_instance(inst, max_exec=200000, bound=None, want=("C04", "C05", "C06", "
     import gbigsmiles
 
     text = inst.text
-    shown = inst.text + (" [the object returned by gen_mirror() of this string]" if inst.mirror else "")
+    shown = inst.text + (" [the object returned by gen_mirror() of this string]" if inst.mirror else "") + (" [after str(), gen_reaction_graph() x2, gen_stochastic_atom_graph() on the same object]" if inst.pre == "graphs" else "")
     stats = {"execs": 0, "points": 0, "exceptions": 0, "outcomes": 0, "model_states": 0, "model_transitions": 0, "capped": False, "maxdepth": 0}
     viols = {}  # key -> (what, script)
     dist = {}  # (targets tuple, canon) -> prob
@@ -526,6 +527,13 @@ def run_instance(inst, max_exec=200000, bound=None, want=("C04", "C05", "C06", "
             m = m.gen_mirror()
             if m is None:
                 raise ValueError("gen_mirror() returns None")
+        if inst.pre == "graphs":
+            # observers first: printing and both graph builders (twice) - they must leave the object as it was
+            for f in (lambda: str(m), m.gen_reaction_graph, m.gen_reaction_graph, lambda: m.gen_stochastic_atom_graph(expect_schulz_zimm_distribution=False), lambda: m.generate_string(False)):
+                try:
+                    f()
+                except Exception:  # noqa
+                    pass
         return m
 
     shared = [build()] if reuse else None
@@ -673,6 +681,12 @@ def replay_script(inst, script, want=("C04", "C05", "C06", "C07")):
         mol_ = gbigsmiles.Molecule(inst.text)
         if inst.mirror:
             mol_ = mol_.gen_mirror()
+        if inst.pre == "graphs":
+            for f in (lambda: str(mol_), mol_.gen_reaction_graph, mol_.gen_reaction_graph, lambda: mol_.gen_stochastic_atom_graph(expect_schulz_zimm_distribution=False), lambda: mol_.generate_string(False)):
+                try:
+                    f()
+                except Exception:  # noqa
+                    pass
         mg = mol_.generate(rng=rng)
         o = observe(inst, mg)
     except HarnessError:
